@@ -98,10 +98,92 @@ structure Good (ctx : Ctx κ) : Prop where
   len : ∀ a, 3 ≤ (ctx.H a).length
   dec : ∀ sch p cs, ctx.decBlob (ctx.encMan sch p cs) = some (cs.map (ctx.reload sch))
 
-/-- commit accepts every entry name of the tree (valid UTF-8) and the decoder returns entries
-with these names unchanged -/
+/-- commit accepts every entry name of the tree (valid UTF-8), the decoder returns entries
+with these names unchanged, and the names are what a directory listing can contain (not empty,
+not "." or "..", no separator), so that `readManifest` accepts them -/
 def NamesOK (ctx : Ctx κ) (t : Node κ) : Prop :=
   ∀ nm, nm ∈ allNames t → ctx.nameOK nm = true ∧
-    ∀ sch sum isDir, ctx.reload sch ⟨nm, sum, isDir⟩ = ⟨nm, sum, isDir⟩
+    (∀ sch sum isDir, ctx.reload sch ⟨nm, sum, isDir⟩ = ⟨nm, sum, isDir⟩) ∧
+    entryNameOK nm = true
+
+/-! ## manifests `readManifest` accepts -/
+
+/-- every entry names a direct child (`entryNameOK`): what `readManifest` checks -/
+def ChildrenOK (cs : List Child) : Prop := ∀ c ∈ cs, entryNameOK c.name = true
+
+theorem childrenOK_iff_all (cs : List Child) :
+    (cs.all fun c => entryNameOK c.name) = true ↔ ChildrenOK cs := by
+  simp [ChildrenOK, List.all_eq_true]
+
+theorem ChildrenOK.nil : ChildrenOK [] := fun _ h => by cases h
+
+theorem ChildrenOK.cons {c : Child} {cs : List Child} (h : entryNameOK c.name = true)
+    (hr : ChildrenOK cs) : ChildrenOK (c :: cs) := by
+  intro x hx
+  rcases List.mem_cons.1 hx with rfl | hx
+  · exact h
+  · exact hr x hx
+
+theorem ChildrenOK.head {c : Child} {cs : List Child} (h : ChildrenOK (c :: cs)) :
+    entryNameOK c.name = true := h c (by simp)
+
+theorem ChildrenOK.tail {c : Child} {cs : List Child} (h : ChildrenOK (c :: cs)) :
+    ChildrenOK cs := fun x hx => h x (by simp [hx])
+
+/-- the validation step of `readManifest` -/
+def checkedChildren (cs : List Child) : Except Err (List Child) :=
+  if cs.all (fun c => entryNameOK c.name) then .ok cs else .error .badManifest
+
+theorem checkedChildren_ok {cs : List Child} (h : ChildrenOK cs) : checkedChildren cs = .ok cs := by
+  simp [checkedChildren, (childrenOK_iff_all cs).2 h]
+
+theorem checkedChildren_bad {cs : List Child} (h : ¬ ChildrenOK cs) :
+    checkedChildren cs = .error .badManifest := by
+  have : ¬ (cs.all fun c => entryNameOK c.name) = true := fun h' => h ((childrenOK_iff_all cs).1 h')
+  simp only [checkedChildren, this]
+  rfl
+
+theorem checkedChildren_eq_ok {cs cs' : List Child} (h : checkedChildren cs = .ok cs') :
+    cs' = cs ∧ ChildrenOK cs := by
+  unfold checkedChildren at h
+  split at h
+  · next hall => cases h; exact ⟨rfl, (childrenOK_iff_all _).1 hall⟩
+  · cases h
+
+/-- `readManifest` with the validation step named -/
+theorem readManifest_eq (ctx : Ctx κ) (s : Store κ) (d : Digest) :
+    readManifest ctx s d = match s.get d with
+      | none => .error .missingFromCache
+      | some (.man sch _ cs) => checkedChildren (cs.map (ctx.reload sch))
+      | some (.blob c) => match ctx.decBlob c with
+        | some cs => checkedChildren cs
+        | none => .error .badManifest := rfl
+
+/-- whatever `readManifest` returns has valid entry names only -/
+theorem readManifest_childrenOK {ctx : Ctx κ} {s : Store κ} {d : Digest} {cs : List Child}
+    (h : readManifest ctx s d = .ok cs) : ChildrenOK cs := by
+  rw [readManifest_eq] at h
+  split at h
+  · cases h
+  · exact (checkedChildren_eq_ok h).1 ▸ (checkedChildren_eq_ok h).2
+  · split at h
+    · exact (checkedChildren_eq_ok h).1 ▸ (checkedChildren_eq_ok h).2
+    · cases h
+
+/-- a stored manifest whose (reloaded) entries have valid names reads back as before -/
+theorem readManifest_man {ctx : Ctx κ} {s : Store κ} {d : Digest} {sch : Schema} {p : Bytes}
+    {cs : List Child} (h : s.get d = some (.man sch p cs))
+    (hok : ChildrenOK (cs.map (ctx.reload sch))) :
+    readManifest ctx s d = .ok (cs.map (ctx.reload sch)) := by
+  rw [readManifest_eq, h]
+  exact checkedChildren_ok hok
+
+/-- a stored manifest with an invalid (reloaded) entry name is rejected -/
+theorem readManifest_man_bad {ctx : Ctx κ} {s : Store κ} {d : Digest} {sch : Schema} {p : Bytes}
+    {cs : List Child} (h : s.get d = some (.man sch p cs))
+    (hbad : ¬ ChildrenOK (cs.map (ctx.reload sch))) :
+    readManifest ctx s d = .error .badManifest := by
+  rw [readManifest_eq, h]
+  exact checkedChildren_bad hbad
 
 end Dud
